@@ -62,7 +62,7 @@ FUNCS = [
     ("doReplayLoop", "(sys : Nat) (r kept : List (Nat × Kind)) (idx : Nat)", "doReplayLoop s sys r kept idx", ["buffered", "trace", "stack"], "unfold doReplayLoop; repeat' (first | split | dsimp only) <;> simp [St.push]"),
     ("doFinish", "(sys idx : Nat)", "doFinish s sys idx", ["counter", "buffered", "trace", "stack"], "unfold doFinish; repeat' (first | split | dsimp only) <;> simp [St.push]"),
     ("doGc", "", "doGc s", ["autoChan", "stack"], "unfold doGc; split <;> simp [St.push]"),
-    ("doDespawnWork", "(w : List (Nat × Bool))", "doDespawnWork s w", KILL + ["children", "stack"], "BLOCK:unfold doDespawnWork|split|· rfl|· split|  · simp [St.push]|  · split <;> simp [St.push]"),
+    ("doDespawnWork", "(w : List (Nat × Bool))", "doDespawnWork s w", KILL + ["children", "stack"], "BLOCK:unfold doDespawnWork|split|· rfl|· split|  · split <;> simp [St.push]|  · split <;> simp [St.push]"),
     ("doPoll", "", "doPoll s", ["removedBuf", "removedOld", "dspChan", "tblDsp", "wq", "stack"], "simp [doPoll, St.push]"),
 ]
 
